@@ -55,7 +55,9 @@ def fresh_graph(h0, h1, g):
     """the graph object's dict and successor sets were allocated after h0"""
     s = X('s')
     return z3.And(nx(h1, g) >= h0.alloc,
-                  z3.ForAll([s], z3.Implies(V(h1, g)[s], sref(h1, g, s) >= h0.alloc)))
+                  z3.ForAll([s], z3.Implies(V(h1, g)[s], sref(h1, g, s) >= h0.alloc)),
+                  # the successor sets are allocated after the dictionary that refers to them
+                  z3.ForAll([s], z3.Implies(V(h1, g)[s], sref(h1, g, s) > nx(h1, g))))
 
 
 def optset(sv):
@@ -147,6 +149,7 @@ def make():
             ('alloc', h.alloc >= lc.h_entry.alloc),
             ('sets_fresh', z3.ForAll([s], z3.Implies(V(h, g)[s], z3.And(sref(h, g, s) >= c.h0.alloc, sref(h, g, s) < h.alloc)))),
             ('sets_distinct', z3.ForAll([s, t], z3.Implies(z3.And(V(h, g)[s], V(h, g)[t], s != t), sref(h, g, s) != sref(h, g, t)))),
+            ('sets_above_dict', z3.ForAll([s], z3.Implies(V(h, g)[s], sref(h, g, s) > nx(h, g)))),
         ] + frame(c.h0, h, c.h0.alloc, {'fld__next': lambda r: r == g})
 
     def init_l1(lc):
@@ -320,6 +323,8 @@ def make():
             ('copied', z3.ForAll([s, d], z3.Implies(lc.seen[s], succ(h, n, s)[d] == succ(c.h0, g, s)[d]))),
             ('sets_fresh', z3.ForAll([s], z3.Implies(lc.seen[s], z3.And(sref(h, n, s) >= c.h0.alloc, sref(h, n, s) < h.alloc)))),
             ('sets_distinct', z3.ForAll([s, t], z3.Implies(z3.And(lc.seen[s], lc.seen[t], s != t), sref(h, n, s) != sref(h, n, t)))),
+            ('sets_above_dict', z3.And(nx(h, n) == nx(lc.h_entry, n), nx(h, n) < lc.h_entry.alloc,
+                                       z3.ForAll([s], z3.Implies(lc.seen[s], sref(h, n, s) > nx(h, n))))),
             ('alloc', h.alloc >= lc.h_entry.alloc),
         ] + frame(c.h0, h, c.h0.alloc)
 
